@@ -1211,8 +1211,11 @@ TRUSTED = [
 ASSUME = [
     "the model is tied to the code by kernel-checked numerical agreement on generated inputs, not by a semantics of "
     "Python/C; agreement is up to the stated tolerance (libm pow/sqrt are not modelled bit-wise)",
-    "float-level totality (every positive budget down to denormals) is searched, not proved: known findings F3a-F3d",
-    "periodic wrap-around is covered for the 1/r bounding potential (laps); the Python potentials are not periodic",
+    "float-level totality (every positive budget down to denormals) is searched, not proved: known findings F3a-F3e",
+    "periodic wrap-around is covered for the 1/r bounding potential (theorem laps_correct); the Python potentials are "
+    "not periodic",
+    "the theorems for the Mexican hats exclude the single budget value 'dE = inner barrier' (branch boundary, F3e) and "
+    "those for the hard sphere a start exactly on the sphere (measure zero)",
 ]
 
 
